@@ -417,25 +417,28 @@ theorem x86_int_hyp_all_ids (cfg : Cfg) (hcfg : cfg ∈ C06S.x86Cfgs) (vis : Lis
     ∀ b, C06S.moveOkAt cfg vis rtD dt rtD dt ⟨i, b, true⟩ d s = true :=
   C06S.x86_int_moves_ok cfg hcfg vis i dt st rtD rtS hdt hst hrd hrs hvi d s
 
-/-- K7: a float in xmm0 whose destination is xmm0 typed double: `init_work_data` marks it done, nothing is emitted, kOk – no conversion. -/
-theorem shuffle_same_reg_conv_witness :
+/-- former K7, repaired by fixes/C06-9 (the model follows the repair): a float in xmm0 whose destination is xmm0 typed double is
+    no longer marked done by `init_work_data`; the self-move `cvtss2sd xmm0, xmm0` is emitted and the destination is right.
+    (On the unrepaired code nothing was emitted and kOk returned.) -/
+theorem shuffle_same_reg_conv_repaired :
     let vals := [(FuncValue.reg 42 11 0, some (FuncValue.reg 80 11 0))]
     let r := emitArgsAssignment { arch := .x64 } frX64 255 vals
-    r = (none, []) ∧ judge .x64 frX64 vals r.2 = some false ∧ ¬ C06S.DoneInitOk vals := by
-  refine ⟨by decide +kernel, by decide +kernel, ?_⟩
-  intro h
-  have := h 0 (by decide) (by decide +kernel)
-  revert this
-  decide +kernel
+    r = (none, [⟨.cvtss2sd, false, [.reg 11 0, .reg 11 0]⟩]) ∧ judge .x64 frX64 vals r.2 = some true := by
+  refine ⟨by decide +kernel, by decide +kernel⟩
 
-/-- K8 (termination): AArch64, dynamically aligned frame without frame pointer, `x0 -> x1` while `x1` is the register picked for the
-    stack-arguments base pointer: the model exhausts every fuel (one futile move per pass) – the real code never returns. -/
-theorem shuffle_a64_sa_livelock_witness :
-    let fr : FrameIn := ⟨false, true, 1, -1, 0, [12799, 0, 0, 0], [2147221504, 65280, 0, 0]⟩
+/-- former K8, repaired by fixes/C06-8: AArch64, dynamically aligned frame without frame pointer, `x0 -> x1`.
+    (a) when the frame's SA register is the one `init_work_data` now picks (a register that is no destination: x2) the assignment is
+    emitted and judged correct with the base pointer tracked; (b) when the caller forces the SA register into the destination (x1)
+    the pass bound `2·var_count + 2` ends the ping-pong with `kInvalidState` after ten moves – on the unrepaired code the call never
+    returned. -/
+theorem shuffle_a64_sa_repaired :
+    let fr2 : FrameIn := ⟨false, true, 2, -1, 0, [12799, 0, 0, 0], [2147221504, 65280, 0, 0]⟩
+    let fr1 : FrameIn := ⟨false, true, 1, -1, 0, [12799, 0, 0, 0], [2147221504, 65280, 0, 0]⟩
     let vals := [(FuncValue.reg 40 6 0, some (FuncValue.reg 0 6 1)), (FuncValue.stack 40 0, some (FuncValue.reg 0 6 9)),
                  (FuncValue.stack 40 8, some (FuncValue.reg 0 6 10))]
-    let r := emitArgsAssignment { arch := .a64 } fr 255 vals
-    r.1.isSome = true ∧ r.2.length = 16 ∧ r.2.all (fun i => i.name == .mov) = true := by decide +kernel
+    let r2 := emitArgsAssignment { arch := .a64 } fr2 255 vals
+    let r1 := emitArgsAssignment { arch := .a64 } fr1 255 vals
+    r2.1 = none ∧ judgeSA .a64 fr2 vals r2.2 = some true ∧ r1.1.isSome = true ∧ r1.2.length = 10 := by decide +kernel
 
 /-! non-vacuity: the 2-cycle `rdi -> rsi, rsi -> rdi` of two int64 arguments on x86-64 satisfies every hypothesis, the model returns
     kOk, and the initial context `init_work_data` builds for it satisfies the invariant `WF` -/
